@@ -173,6 +173,10 @@ def do_fit(S, op, i, base_seed, check):
                 v = getattr(o, attr, None) if o is not None else None
                 if isinstance(v, np.ndarray):
                     held[f"{side}_{attr}"] = v
+    for attr in ("dual_init",):
+        v = getattr(getattr(model, "solver", None), attr, None)
+        if isinstance(v, np.ndarray):
+            held["solver_" + attr] = v
     before = {k: _hash_obj(v) for k, v in held.items()}
     seams = Seams(op.get("faults"))
     exc = None
@@ -542,7 +546,7 @@ def judge_reweighting(S, mid, ds, Xd, coefs, feat0, i):
     """C03: iterative reweighting never increases the non-convex objective it majorises.
     Each weighted-L1 surrogate is solved to the solver's tolerance, so the reference objective
     of the iterate after reweighting k + 1 may exceed that of iterate k by at most what an
-    inexact surrogate solve allows (tol * ||dw||_1, subdifferential criterion)."""
+    inexact surrogate solve allows (see the slack below)."""
     params = dict(S.args[mid])
     fam = dict(params["family"], knobs=params.get("knobs") or {})
     pr, info = E.reference_problem("IterativeReweightedL1", params, Xd, np.array(ds["y"], dtype=float), family=fam)
@@ -551,7 +555,22 @@ def judge_reweighting(S, mid, ds, Xd, coefs, feat0, i):
     for k in range(1, len(objs)):
         dw = float(np.sum(np.abs(coefs[k] - coefs[k - 1])))
         scale = pr.rounding_scale(coefs[k], 0.0)
-        slack = 2 * tol * dw * (1 + REL) + 1e-9 * (1 + abs(objs[k - 1])) + 1e4 * EPS * scale
+        # every surrogate is solved from a cold start, so it need not improve on the previous
+        # iterate: Q(w_k+1) - min Q <= tol * ||w_k+1 - w*||_1 (convexity, tol-stationarity), and
+        # alpha * min(weights) * ||w*||_1 <= Q(w*) <= Q(0) = ||y||^2 / 2n bounds the unknown w*
+        wprev = np.abs(np.asarray(coefs[k - 1], dtype=float))
+        pn, pa = fam["penalty"], fam["pargs"]
+        if pn == "L0_5":
+            wts = 1.0 / (2.0 * np.sqrt(wprev) + 1e-12)
+        elif pn == "L2_3":
+            wts = 2.0 / (3.0 * wprev ** (1.0 / 3.0) + 1e-12)
+        else:
+            wts = 1.0 / (wprev + float(pa.get("eps", 1.0)))
+        yv = np.asarray(ds["y"], dtype=float)
+        wmin = float(np.min(wts)) if len(wts) else 1.0
+        D = float(yv @ yv) / (2 * len(yv)) / max(float(pa["alpha"]) * wmin, 1e-300)
+        slack = tol * (1 + REL) * (2 * dw + float(np.sum(np.abs(coefs[k]))) + D) \
+            + 1e-9 * (1 + abs(objs[k - 1])) + 1e4 * EPS * scale
         if info["criterion"] != "subdiff":
             Lc = pr.unit_lipschitz(coefs[k], 0.0, mode="global")
             slack += tol * (float(np.sum(Lc)) + 1.0) * (dw + pr.p * tol) + tol * pr.p * pr.pen.slope_scale() * 10
